@@ -250,6 +250,14 @@ t("c48.to_rgba_u32", "let _ = c48::<{0}>().to_rgba_u32();", [C4], lambda a: a ==
 t("c4f.lerp", "let _ = c4f::<{0}>().lerp(&c4f::<{1}>(), 0.5);", [C4, C4], eq)
 t("c4f.lerp(to_hsla) (never)", "let _ = c4f::<Rgba>().lerp(&c4f::<Rgba>().to_hsla(), 0.5);", [[""]], lambda a: False)
 t("cf.to_rgba tag", "let _: Color<[f32; 4], {1}> = cf::<{0}>().to_rgba();", [CS, C4], lambda a, b: a == "Rgb" and b == "Rgba")
+# no operator arithmetic on colours at all (only the Affine / Linear methods, which check the colour space): every spelling is a misuse
+# (only pairs of DIFFERENT spaces are generated: the pinned tree happens to have no colour operators at all, but same-space
+# operators would be no misuse if they existed)
+def _pairs(al, fn, op): return [f"{fn}::<{a}>() {op} {fn}::<{b}>()" for a in al for b in al if a != b]
+t("colorf + colorf of another space (never)", "let _ = {0};", [_pairs(CS, "cf", "+")], lambda a: False)
+t("colorf - colorf of another space (never)", "let _ = {0};", [_pairs(CS, "cf", "-")], lambda a: False)
+t("c4f + c4f of another space (never)", "let _ = {0};", [_pairs(C4, "c4f", "+")], lambda a: False)
+t("c4f - c4f of another space (never)", "let _ = {0};", [_pairs(C4, "c4f", "-")], lambda a: False)
 t("colorf + vec3 (never)", "let _ = cf::<Rgb>().add(&v3::<{0}>());", [B], lambda a: False)
 # --- render(): vertex shader output must be a projective vertex; viewport matrix must be NDC->screen --------
 RENDER = '''let vs = |v: Vertex3<f32, {0}>, m: &Mat4x4<{1}>| vertex({2}, v.attrib);
@@ -274,6 +282,18 @@ def render_ok(basis, mp, pos, vp):
         return False
     return vp in VPS[:2]
 t("render shader/viewport types", RENDER, [B, MAPS, POS, VPS], render_ok)
+# the fragment shader's result: an 8-bit RGBA colour (or None) - never a colour tagged with another space
+# (judged: colours of another SPACE; whether float or 3-channel RGB colours convert is not a tagging question and not asked)
+FSOUT = ["c48::<Rgba>()", "Some(c48::<Rgba>())", "None::<Color4>", "c4f::<Hsla>()", "c48::<Hsla>()", "Some(c48::<Hsla>())", "Some(c4f::<Hsla>())"]
+RENDER_FS = '''let vs = |v: Vertex3<f32, BA>, m: &Mat4x4<RealToProj<BA>>| vertex(m.apply(&v.pos), v.attrib);
+    let fs = |_f: Frag<f32>| {0};
+    let sh = retrofire_core::render::shader::Shader::new(vs, fs);
+    let mut tgt = Buf2::<u32>::new((4, 4));
+    let verts: [Vertex3<f32, BA>; 0] = [];
+    let tris: [Tri<usize>; 0] = [];
+    let m: Mat4x4<RealToProj<BA>> = Mat4x4::identity();
+    render(tris, verts, &sh, &m, viewport(pt2(0, 0)..pt2(4, 4)), &mut tgt, &Context::default());'''
+t("fragment shader output colour", RENDER_FS, [FSOUT], lambda o: o in FSOUT[:3])
 
 
 def programs():
